@@ -1320,3 +1320,47 @@ func ruleL14r(c *Ctx) {
 	}
 	c.check(n >= 1, "L14r", "processRESB|branches found", c.L.Pos(f.Pos()), fmt.Sprintf("%d", n))
 }
+
+// ---------------------------------------------------------------------------------------
+// S16l: LGDT [label] is encoded with the absolute-address form of the mode
+// ---------------------------------------------------------------------------------------
+
+func ruleS16l(c *Ctx) {
+	c.doc("S16l", "every byte sequence handleLGDT can return is 0F 01 /2 with the absolute-address ModR/M of the mode and the full-width address: 0F 01 16 lo hi (16-bit) or 0F 01 15 b0 b1 b2 b3 (32-bit). A shorter displacement form (mod=01) means [BP+disp8] / [EBP+disp8], not an absolute address, and makes the instruction's length depend on the label's value")
+	f := c.L.SSAFunc("internal/codegen", "handleLGDT")
+	if f == nil {
+		c.anchorMissing("S16l", "internal/codegen.handleLGDT")
+		return
+	}
+	paths, ok := enumPaths(f, 5000)
+	if !ok {
+		c.fail("S16l", "handleLGDT|path enumeration", c.L.Pos(f.Pos()), "undecided: too many paths")
+		return
+	}
+	seen := map[string]bool{}
+	n := 0
+	for i := range paths {
+		p := paths[i]
+		if len(p.Ret.Results) != 2 || p.contradictsConstGuard() {
+			continue
+		}
+		if e, ok := p.Ret.Results[1].(*ssa.Const); !ok || !e.IsNil() {
+			continue
+		}
+		for _, sp := range shapesWithHelpers(p, p.Ret.Results[0], 2) {
+			sh := sp.Shape
+			desc := sh.String()
+			if seen[desc] || len(sh) == 0 {
+				continue
+			}
+			seen[desc] = true
+			n++
+			runs := fieldRuns(sh)
+			good := len(sh) >= 3 && sh[0].Kind == bConst && sh[0].C == 0x0F && sh[1].Kind == bConst && sh[1].C == 0x01 && sh[2].Kind == bConst &&
+				len(runs) == 1 && runs[0].Start == 3 && runs[0].LE && runs[0].Width == len(sh)-3 &&
+				((sh[2].C == 0x16 && runs[0].Width == 2) || (sh[2].C == 0x15 && runs[0].Width == 4))
+			c.check(good, "S16l", fmt.Sprintf("handleLGDT|form#%d", n), c.L.Pos(retPos(p.Ret)), "handleLGDT can return "+desc+": not 0F 01 16 + 16-bit address or 0F 01 15 + 32-bit address")
+		}
+	}
+	c.check(n >= 2, "S16l", "handleLGDT|forms found", c.L.Pos(f.Pos()), fmt.Sprintf("%d", n))
+}
